@@ -25,7 +25,7 @@ from ..mir import fmt, walk, const_val
 from . import C09
 
 EXPLANATION = __doc__
-TECHNIQUE = "bit-provenance of shift/mask expressions vs. the RFC clamp, term-domain dataflow with radix-weight consistency (2^130 = 5), complementary-mask select rule"
+TECHNIQUE = "bit-provenance of shift/mask expressions vs. the RFC clamp, term-domain dataflow with radix-weight consistency (2^130 = 5), complementary-mask select rule; bounded shape evaluation (concrete offsets / lengths derived from the code's own length constants, symbolic contents, opaque recorded leaf calls) of the buffering loops; limb-polynomial identities"
 
 CLAMP = 0x0ffffffc0ffffffc0ffffffc0fffffff
 
